@@ -406,6 +406,45 @@ func (g *gen) decodeWireBounded(f *Field, rec, name, ind string, bound int) {
 	g.decodeWire(f, rec, name, ind)
 }
 
+// libraryDecode: the Merge option and the default (reset first) through the real
+// protobuf-go dispatch (proto.UnmarshalOptions.Unmarshal -> Reset / ProtoMethods).
+func (g *gen) libraryDecode(m *Message) {
+	n := m.GoName
+	var sf *Field
+	for _, f := range m.Fields {
+		if f.Card == "singular" && f.Kind != "message" {
+			sf = f
+			break
+		}
+	}
+	if sf == nil {
+		return
+	}
+	g.p("func VH_C03_%s__mergeoption() {", n)
+	g.p("\tx := &%s{}", n)
+	g.p("\tvhFill_%s(x)", n)
+	g.p("\tmerge := vhChoice(\"merge\", 2) == 1")
+	g.p("\tvar exp *%s", n)
+	g.p("\tif merge {")
+	g.p("\t\texp = vhClone_%s(x)", n)
+	g.p("\t} else {")
+	g.p("\t\texp = &%s{} // without Merge the message is reset first", n)
+	g.p("\t}")
+	g.p("\tvar rec []byte")
+	g.p("\trec = vhTag(rec, %d, protowire.%sType, \"r\")", sf.Number, wireKind(sf))
+	g.decodeWire(sf, "rec", "\"v\"", "\t")
+	if sf.Kind == "bytes" {
+		g.p("\texp.%s = vhCloneBytes(val)", sf.GoName)
+	} else {
+		g.p("\texp.%s = val", sf.GoName)
+	}
+	g.p("\terr := proto.UnmarshalOptions{Merge: merge}.Unmarshal(rec, x)")
+	g.p("\tvhAssert(\"accepts\", err == nil)")
+	g.p("\tvhAssertEq_%s(\"step\", exp, x)", n)
+	g.p("}")
+	g.p("")
+}
+
 func (g *gen) decodeDrivers(m *Message) {
 	n := m.GoName
 	g.p("func vhUnmarshalStep_%s(x *%s, buf []byte, flags protoiface.UnmarshalInputFlags) error {", n, n)
@@ -568,6 +607,7 @@ func (g *gen) DecodeSource(props []string, msgs []*Message, h2 bool, fieldFilter
 		for _, prop := range props {
 			switch prop {
 			case "C03":
+				g.libraryDecode(m)
 				for _, f := range m.All {
 					if fieldFilter != nil && !fieldFilter(m, f) {
 						continue
@@ -588,6 +628,36 @@ func (g *gen) DecodeSource(props []string, msgs []*Message, h2 bool, fieldFilter
 // ---------- C06: totality ----------
 
 func (g *gen) totalCommon() {
+	g.p("// vhWalk visits a message the way generic library code (Equal, CheckInitialized, Range")
+	g.p("// based encoders) does: every populated field, list element and map value, recursively.")
+	g.p("func vhWalk(m protoreflect.Message, d int) {")
+	g.p("\tm.Range(func(fd protoreflect.FieldDescriptor, v protoreflect.Value) bool {")
+	g.p("\t\tisMsg := fd.Kind() == protoreflect.MessageKind")
+	g.p("\t\tswitch {")
+	g.p("\t\tcase fd.IsMap():")
+	g.p("\t\t\tvalMsg := fd.MapValue().Kind() == protoreflect.MessageKind")
+	g.p("\t\t\tv.Map().Range(func(k protoreflect.MapKey, mv protoreflect.Value) bool {")
+	g.p("\t\t\t\tif valMsg && d > 0 {")
+	g.p("\t\t\t\t\tvhWalk(mv.Message(), d-1)")
+	g.p("\t\t\t\t}")
+	g.p("\t\t\t\treturn true")
+	g.p("\t\t\t})")
+	g.p("\t\tcase fd.IsList():")
+	g.p("\t\t\tl := v.List()")
+	g.p("\t\t\tfor i := 0; i < l.Len(); i++ {")
+	g.p("\t\t\t\tif isMsg && d > 0 {")
+	g.p("\t\t\t\t\tvhWalk(l.Get(i).Message(), d-1)")
+	g.p("\t\t\t\t}")
+	g.p("\t\t\t}")
+	g.p("\t\tcase isMsg:")
+	g.p("\t\t\tif d > 0 {")
+	g.p("\t\t\t\tvhWalk(v.Message(), d-1)")
+	g.p("\t\t\t}")
+	g.p("\t\t}")
+	g.p("\t\treturn true")
+	g.p("\t})")
+	g.p("}")
+	g.p("")
 	g.p("// vhSpanning builds the bytes following a tag with wire type wt so that the first")
 	g.p("// record either fails to parse or extends exactly to the end of the buffer (one")
 	g.p("// iteration of the record loop from an arbitrary pre-state; longer inputs follow by")
@@ -639,7 +709,11 @@ func (g *gen) totalField(m *Message, f *Field) {
 		payloadMax = g.strLen // nested decode is stubbed (assume-guarantee), payload is only sliced
 	}
 	g.p("// one arbitrary (possibly ill-typed) record for field %s decoded into an arbitrary pre-state", f.GoName)
-	g.p("func VH_C06_%s_%s() {", n, f.GoName)
+	tag := ""
+	if f.Card == "map" && f.Val.Kind == "message" {
+		tag = "_mapmsg"
+	}
+	g.p("func VH_C06_%s_%s%s() {", n, f.GoName, tag)
 	g.p("\tx := &%s{}", n)
 	g.p("\tvhBuild_%s_%s(x, \"pre\", 0)", n, f.GoName)
 	g.p("\twt := vhChoice(\"wt\", 8)")
@@ -666,6 +740,8 @@ func (g *gen) totalMessage(m *Message, anyN int) {
 	g.p("\t\tsz := methods.Size(protoiface.SizeInput{Message: msg}).Size")
 	g.p("\t\tout, merr := methods.Marshal(protoiface.MarshalInput{Message: msg})")
 	g.p("\t\tvhAssert(\"post.marshal\", merr == nil && len(out.Buf) == sz)")
+	g.p("\t\t// ... and ranged over recursively, as proto.Equal / CheckInitialized do")
+	g.p("\t\tvhAssert(\"post.walk.nopanic\", !vhCatch(func() { vhWalk(msg, 1) }))")
 	g.p("\t}")
 	g.p("}")
 	g.p("")
